@@ -39,10 +39,13 @@ def _consts(nkeys, seed, max_ops, max_tx, emit, kinds=("put", "del"), opkeys=Non
 INVS = "NoPanic CommitOK ReadYourWrites ScanYourWrites NodesSorted"
 
 
-def mc(name, nkeys, seed, max_ops, max_tx, workers=None, timeout=3600, **kw):
+SEEK_INVS = INVS + " SeekYourWrites"
+
+
+def mc(name, nkeys, seed, max_ops, max_tx, workers=None, timeout=3600, invs=None, **kw):
     """exhaustive check of the model itself; returns dict(states, transitions, ok, violated)"""
     mod, cfg = instantiate("MC_BTree", "MCBT_" + name, _consts(nkeys, seed, max_ops, max_tx, False, **kw),
-                           ["SPECIFICATION Spec", "VIEW View", "INVARIANTS " + INVS, "CHECK_DEADLOCK FALSE"])
+                           ["SPECIFICATION Spec", "VIEW View", "INVARIANTS " + (invs or INVS), "CHECK_DEADLOCK FALSE"])
     # no -coverage: with the deeply recursive operators of BTree.tla it costs > 100x
     r = tlc_mc(mod, cfg, workers=workers or min(NCPU, 8), timeout=timeout, coverage=False)
     r["name"] = name
